@@ -1,5 +1,5 @@
 #!/bin/sh
 # usage: check.sh <property> <quick|thorough>  — rebuilds the encoding from /repo's working tree and decides the property.
 cd /verif
-[ -x /verif/bin/gosymex ] || ./setup.sh >/dev/null || exit 2
+[ -x /verif/bin/gosymex ] || SKIP_ENGINE_SELFTEST=1 ./setup.sh >/dev/null || exit 2
 exec /verif/bin/gosymex check "$1" --tier "${2:-quick}"
